@@ -96,12 +96,12 @@ Proof.
     unfold q_on_list. cbn [qheap qback qsize]. unfold qfront_arg.
     destruct (list_peek_ok T zero h c Hwf 0%Z) as [s' [E Hs]]. rewrite E, <- Hl.
     unfold apeek. cbn [Z.ltb Z.compare Z.to_nat].
-    destruct l as [|x l']; cbn [length Nat.ltb Nat.leb nth hd fst snd]; (split; [|reflexivity]);
+    destruct l as [|x l']; cbn [length Z.of_nat Z.ltb Z.compare nth hd fst snd]; (split; [|reflexivity]);
       exists c; cbn [qheap qback qsize]; rewrite Hs; auto.
   - (* Peek *)
     unfold q_on_list. cbn [qheap qback qsize]. unfold qpeek_arg.
     destruct (list_peek_ok T zero h c Hwf n) as [s' [E Hs]]. rewrite E, <- Hl.
-    unfold apeek. destruct (n <? 0)%Z; [|destruct (Z.to_nat n <? length l)]; cbn [qfail fst snd qheap qback qsize];
+    unfold apeek. destruct (n <? 0)%Z; [|destruct (n <? Z.of_nat (length l))%Z]; cbn [qfail fst snd qheap qback qsize];
       (split; [|reflexivity]); exists c; cbn [qheap qback qsize]; rewrite Hs; auto.
   - (* Each *)
     unfold q_on_list. cbn [qheap qback qsize].
